@@ -207,6 +207,24 @@ def run(prog, R):
     if not badkw:
         R.ob("C05.4-keyword-under-its-node", "all-pairs", True, "", f"{npairs} (keyword, node kind) pairs: each keyword with a typed accessor is consumed directly under a node kind whose struct has that accessor")
     R.floor("keyword/node pairs", npairs, 30)
+    # ---- C05.3 positional accessors count on mandatory operands: each window of spec/mandatory_operands.json (one
+    # operand missing) is rejected by the grammar function; if it were accepted, the remaining same-kind children
+    # would shift into the role of the missing one (`a[:3]`: stop read as start)
+    nm_ = 0
+    for e_ in json.load(open(os.path.join(VERIF, "spec", "mandatory_operands.json")))["probes"]:
+        outs_ = getattr(G, "mandatory_probe", {}).get((e_["fn"], tuple(e_["tokens"])))
+        if outs_ is None:
+            R.ob("C05.3-positional-operands-mandatory", f"{short(e_['fn'])}:{' '.join(e_['tokens'])}", False, "", "the probe could not be evaluated (function or token kind not found)")
+            continue
+        nm_ += 1
+        import roles as _roles
+        if e_.get("accessor") and not _roles.as_reviewed(prog, e_["accessor"]):
+            continue        # the accessor no longer selects by position as reviewed: C05.3-ROLE-positional reports that
+        clean_ = [o_ for o_ in outs_ if not o_[1]]
+        R.ob("C05.3-positional-operands-mandatory", f"{short(e_['fn'])}:{' '.join(e_['tokens'])}", not clean_, prog.body(e_["fn"]).at,
+             f"rejected: {e_['missing']} is mandatory" if not clean_ else
+             f"`{' '.join(e_['tokens'])}` is accepted without a diagnostic ({outs_}) although the {e_['missing']} is missing: the accessor that selects operands by position then reads another operand in its place")
+    R.floor("mandatory-operand probes", nm_, 10)
     # ---- C05.3 PRESENT: constituents that the typed accessors (and the analyser) expect on every diagnostic-free parse:
     # the grammar function of the statement completes a node of that kind on every path (or reports a syntax error)
     import shapes
